@@ -79,7 +79,11 @@ func b01(b bool) string {
 // implChooser runs the real truncate and prints the result in the model's vocabulary: "<n> <removed> <ids left>"
 func implChooser(c chooserCase) (n int, removed uint64, deleted []uint64, out string) {
 	tp := partition.TruncateParams{DryRun: c.Dry, MaxSrcSize: c.Max, MinSrcSize: c.Min, OldestTs: c.Before}
-	n, removed, deleted, err := partition.VerifTruncate(tp, c.JSize, c.Chunks)
+	var err error
+	// a panic of the code under test is an answer ("panic: …") that differs from the model's, not the end of the harness
+	if pn := vh.Recover(func() { n, removed, deleted, err = partition.VerifTruncate(tp, c.JSize, c.Chunks) }); pn != "" {
+		return 0, 0, nil, "panic: " + pn
+	}
 	if err != nil {
 		return 0, 0, nil, "err"
 	}
@@ -727,6 +731,7 @@ type sysResult struct {
 	ReaderP2 *readerOutcome `json:"reader_p2,omitempty"`
 	Err      string         `json:"err,omitempty"`
 	Skip     string         `json:"skip,omitempty"`
+	Crash    bool           `json:"crash,omitempty"` // the case killed or hung its worker: reported as a failure with its input
 }
 
 type readerOutcome struct {
@@ -950,7 +955,11 @@ func judgeSys(secName string, sec *vh.Section, c sysCase, r sysResult, answers [
 		res.SpecFail(vh.SpecFailure{Section: secName, Kind: kind, Input: c, Impl: impl, Spec: spec, Model: mdl, ImplEqModel: eq, Finding: finding, What: what})
 	}
 	if r.Err != "" {
-		res.Note("%s: case could not run: %s", secName, r.Err)
+		if r.Crash {
+			res.SpecFail(vh.SpecFailure{Section: secName, Kind: "crash-or-hang", Input: c, Impl: r.Err, Spec: "the statement completes", What: "the case killed or hung the process it ran in: " + r.Err})
+		} else {
+			res.Note("%s: case could not run: %s", secName, r.Err)
+		}
 		return
 	}
 	nontrivial := false
@@ -1474,7 +1483,16 @@ func runCases(cases []sysCase) []sysResult {
 		os.Remove(in.Name())
 		os.Remove(outf)
 		if err != nil || len(rs) != to-from {
-			res.Fatal(args.Out, "worker subprocess failed: %v", err)
+			if to-from == 1 {
+				// this very case killed its worker (a panic in a goroutine of the server under test, a deadlock …)
+				rs = []sysResult{{Case: cases[from], Err: fmt.Sprintf("the worker subprocess running this case died: %v", err), Crash: true}}
+			} else {
+				// isolate the case: run the batch again one case per subprocess
+				rs = nil
+				for k := from; k < to; k++ {
+					rs = append(rs, runCases(cases[k:k+1])...)
+				}
+			}
 		}
 		all = append(all, rs...)
 	}
@@ -1496,8 +1514,12 @@ func workerMain(inPath, outPath string) {
 		go func(i int) {
 			defer wg.Done()
 			defer func() { <-sem }()
-			if !vh.WithTimeout(60*time.Second, func() { outs[i] = runSys(cases[i]) }) {
-				outs[i] = sysResult{Case: cases[i], Err: "case did not finish within 60 s"}
+			if !vh.WithTimeout(120*time.Second, func() {
+				if pn := vh.Recover(func() { outs[i] = runSys(cases[i]) }); pn != "" {
+					outs[i] = sysResult{Case: cases[i], Err: "panic in the harness goroutine: " + pn, Crash: true}
+				}
+			}) {
+				outs[i] = sysResult{Case: cases[i], Err: "case did not finish within 120 s", Crash: true}
 			}
 		}(i)
 	}
@@ -1630,8 +1652,19 @@ func writerCase(sec *vh.Section, rng *vh.Rng) {
 	close(stop)
 	<-done
 	srv.FlushWait()
-	time.Sleep(10 * time.Millisecond)
-	after := observe(srv, tags)
+	settle(srv, tags, -1)
+	// the last batch may still be on its way to "confirmed" (the flush timer is late on a loaded machine), and the
+	// asynchronous chunk removal may not have finished: wait until the stored content and a full read agree
+	var after partObs
+	for try := 0; try < 100; try++ {
+		after = observe(srv, tags)
+		rs, rerr := readSeqs(after.Read)
+		if rerr == "" && fmt.Sprint(rs) == fmt.Sprint(after.seqs()) {
+			break
+		}
+		time.Sleep(30 * time.Millisecond)
+		settle(srv, tags, -1)
+	}
 	written := make([]int, 0, seq)
 	for s := 1; s < seq; s++ {
 		written = append(written, s)
@@ -1728,6 +1761,8 @@ func replay(path string) {
 		sectionSizeRace()
 	case "droprace":
 		sectionDropRace()
+	case "beforerace":
+		sectionBeforeRace()
 	case "hull":
 		sectionHull()
 	default:
@@ -1808,8 +1843,13 @@ func sectionHull() {
 		res.Fatal(args.Out, "driver: %v", err)
 	}
 	for i, sq := range seqs {
-		mn, mx, _ := tmindex.VerifChunkHull(sq)
-		impl := fmt.Sprintf("%d %d", mn, mx)
+		var mn, mx int64
+		impl := ""
+		if pn := vh.Recover(func() { mn, mx, _ = tmindex.VerifChunkHull(sq) }); pn != "" {
+			impl = "panic: " + pn
+		} else {
+			impl = fmt.Sprintf("%d %d", mn, mx)
+		}
 		key := ""
 		if mn != sq[0][0] || mx != sq[0][1] {
 			key = lines[i]
@@ -1948,6 +1988,91 @@ func dropRaceCase(sec *vh.Section, form string) {
 }
 
 // ---------------------------------------------------------------------------------------------
+// beforerace: an append to the LAST chunk between truncate's time loop and DeleteChunks (needs the hook point
+// partition.truncate.chosen right before the DeleteChunks call; without it the section records that and does nothing)
+
+func sectionBeforeRace() {
+	if !verifhook.Enabled {
+		return
+	}
+	sec := res.Section("beforerace", "spec-search",
+		"deterministic replay of one interleaving (only when /repo has the hook point partition.truncate.chosen before the DeleteChunks call of truncate): one partition, one chunk that is NOT full, TRUNCATE BEFORE t with t newer than everything; parked after the loops chose the chunk, a second client appends one event with a timestamp >= t to that chunk (acknowledged, flushed, released); then DeleteChunks runs. The property's BEFORE clause wants the chunk kept, or at least that event")
+	defer res.Done(sec)
+	dir := lrsrv.NewDir()
+	defer os.RemoveAll(dir)
+	srv, err := lrsrv.Start(dir, lrsrv.Opts{MaxChunkSize: 4000})
+	if err != nil {
+		res.Note("beforerace: %v", err)
+		return
+	}
+	defer srv.Stop()
+	tags := "g=b,p=1"
+	write := func(seq int) {
+		var wr api.WriteResult
+		srv.Client.Write(context.Background(), tags, "", []*api.LogEvent{{Timestamp: int64(seq), Message: fmt.Sprintf("%04d_", seq)}}, &wr)
+	}
+	for i := 1; i <= 3; i++ {
+		write(i)
+	}
+	srv.FlushWait()
+	settle(srv, tags, 3)
+	before := observe(srv, tags)
+	parked := make(chan struct{})
+	release := make(chan struct{})
+	var once sync.Once
+	verifhook.Set("partition.truncate.chosen", func() {
+		once.Do(func() {
+			close(parked)
+			<-release
+		})
+	})
+	defer verifhook.Set("partition.truncate.chosen", nil)
+	q := "truncate {" + tags + "} before \"50\""
+	var out string
+	var xerr error
+	fin := make(chan struct{})
+	go func() {
+		defer close(fin)
+		r, err := srv.Admin.Execute(api.ExecRequest{Query: q})
+		out, xerr = r.Output, err
+	}()
+	select {
+	case <-parked:
+	case <-fin:
+		res.Dist(sec, "hook point partition.truncate.chosen absent: interleaving not exercised")
+		return
+	case <-time.After(10 * time.Second):
+		res.Note("beforerace: neither the hook nor the end of the statement within 10 s")
+		close(release)
+		return
+	}
+	if !vh.WithTimeout(10*time.Second, func() { write(400); srv.FlushWait(); settle(srv, tags, 4) }) {
+		res.Note("beforerace: the concurrent write did not complete while the truncation was parked")
+	}
+	mid := observe(srv, tags)
+	close(release)
+	<-fin
+	time.Sleep(15 * time.Millisecond)
+	after := observe(srv, tags)
+	res.Eval(sec, q)
+	in := map[string]interface{}{"stmt": q, "before": before.layout(), "at_hook": "event 400 (timestamp 400 >= 50) appended to the chosen chunk, flushed, released: " + mid.layout(),
+		"interleaving": "truncate: snapshot, loops choose the only chunk | append to that chunk | DeleteChunks, deleteJournal"}
+	kept := false
+	for _, m := range after.Read {
+		if seqOf(m) == 400 {
+			kept = true
+		}
+	}
+	if !kept {
+		// MODEL (Props.C09.cex_before_race): truncateAt on a snapshot whose last chunk has grown removes the grown chunk
+		res.SpecFail(vh.SpecFailure{Section: "beforerace", Kind: "before-race-lost-newer-event", Input: in,
+			Impl: fmt.Sprintf("exists=%v read=%v report=%q err=%v", after.Exists, after.Read, strings.TrimSpace(out), xerr), Spec: "event 400 (not older than BEFORE 50) is still readable",
+			Model: "truncateAt removes the grown chunk (cex_before_race)", ImplEqModel: len(after.Read) == 0, Finding: "F-C09-R1",
+			What: "an event NOT older than t, appended (and acknowledged) to the partition's last chunk after truncate's time loop chose that chunk and before DeleteChunks, is removed with the chunk by TRUNCATE BEFORE t"})
+	}
+}
+
+// ---------------------------------------------------------------------------------------------
 // sizerace: a write confirmed between `size := jrnl.Size()` and the loops of truncate (hook partition.truncate.sized)
 
 func sectionSizeRace() {
@@ -2078,5 +2203,6 @@ func main() {
 	sectionWriter(rng.Fork("writer"))
 	sectionSizeRace()
 	sectionDropRace()
+	sectionBeforeRace()
 	res.Write(args.Out)
 }
